@@ -1,4 +1,5 @@
 import SgVerif.C36.Model
+import SgVerif.C36.SegLemmas
 /-
 C36 — theorems.  `switch_on_every_resume_isolation`: with the switch in `ActorImpl::yield` the implementation
 semantics (accesses go to the mapped copy) coincides with the private-memory semantics on EVERY event sequence
@@ -95,5 +96,105 @@ theorem no_switch_leaks_counterexample :
 example : (runWith (step true) (init (fun _ => 7))
     [.resume 0, .write 0 0 1, .kswitch 1, .resume 1, .read 1 0, .write 1 0 2, .kswitch 0, .kswitch 1, .resume 0,
      .read 0 0, .resume 1, .read 1 0]).map (·.2) = some [7, 1, 2] := by decide +kernel
+
+/-! ### the address-level model: mmap bookkeeping, address filter, copy callback (Segment.lean) -/
+
+
+/-- **segment_isolation**: for every event sequence — any interleaving of rank slices (`resume`), loads and stores of the
+    running rank at ANY address (globals, stack, heap), kernel-side `smpi_switch_data_segment(actor, addr)` calls with
+    or without an address (the filter may refuse to switch), and copy callbacks between any two ranks with the source and
+    the destination buffer each either in the globals or outside (four combinations: temp copy + two switches, one switch,
+    none) — the implementation (one file mapped at a time, `smpi_loaded_page`, MAP_SHARED writes) returns exactly what
+    "private globals per rank + shared rest of the address space" returns, and ends in the same abstract state.
+    Hypotheses: the invariant holds initially (`inv_setup`), and a communication buffer that starts outside the data
+    segment lies entirely outside (`Seg.evOk`). -/
+theorem segment_isolation (c : Seg.Cfg) : ∀ (evs : List Seg.Ev) (s : Seg.St), Seg.Inv c s → (∀ e ∈ evs, Seg.evOk c e) →
+    (Seg.runWith (Seg.step c) s evs).map (fun p => (Seg.abs p.1, p.2)) = Seg.runWith (Seg.istep c) (Seg.abs s) evs := by
+  intro evs
+  induction evs with
+  | nil => intro s _ _; rfl
+  | cons e es ih =>
+    intro s hI hok
+    have h1 := Seg.step_refines c s e hI (hok e (by simp))
+    simp only [Seg.runWith]
+    cases hs : Seg.step c s e with
+    | none =>
+      rw [hs] at h1
+      simp only [Option.map_none] at h1
+      rw [← h1]; rfl
+    | some p =>
+      obtain ⟨s', o⟩ := p
+      rw [hs] at h1
+      simp only [Option.map_some] at h1
+      rw [← h1]
+      have ih' := ih s' (Seg.inv_step c s s' o e hI hs) (fun e' he' => hok e' (List.mem_cons_of_mem _ he'))
+      simp only []
+      rw [← ih']
+      cases Seg.runWith (Seg.step c) s' es with
+      | none => rfl
+      | some q => rfl
+
+/-- `smpi_backup_global_memory_segment` + `smpi_init_global_memory_segment_process` for every rank: each rank's private file
+    starts as a copy of the executable's data segment, nothing is mapped yet, and the invariant holds (maestro runs) -/
+theorem setup_regions (s : Seg.St) (ranks : List Nat) (hc : s.cur = none) :
+    (∀ r ∈ ranks, (Seg.setup s ranks).region r = s.orig) ∧ (Seg.setup s ranks).loaded = s.loaded ∧
+      (Seg.setup s ranks).other = s.other ∧ ∀ c, Seg.Inv c (Seg.setup s ranks) := by
+  have key : ∀ (ranks : List Nat) (t : Seg.St), t.copy = s.orig → t.cur = none →
+      (∀ r ∈ ranks, (ranks.foldl Seg.initProc t).region r = s.orig) ∧ (∀ r ∉ ranks, (ranks.foldl Seg.initProc t).region r = t.region r) ∧
+      (ranks.foldl Seg.initProc t).loaded = t.loaded ∧ (ranks.foldl Seg.initProc t).other = t.other ∧
+      (ranks.foldl Seg.initProc t).cur = none := by
+    intro ranks
+    induction ranks with
+    | nil => intro t _ h2; exact ⟨by simp, by simp, rfl, rfl, h2⟩
+    | cons r rest ih =>
+      intro t h1 h2
+      obtain ⟨i1, i2, i3, i4, i5⟩ := ih (Seg.initProc t r) h1 h2
+      simp only [List.foldl_cons]
+      refine ⟨?_, ?_, i3, i4, i5⟩
+      · intro r' hr'
+        by_cases hm : r' ∈ rest
+        · exact i1 r' hm
+        · have hr : r' = r := by simpa [hm] using hr'
+          rw [i2 r' hm, hr]
+          funext off; simp [Seg.initProc, h1]
+      · intro r' hr'
+        simp only [List.mem_cons, not_or] at hr'
+        rw [i2 r' hr'.2]
+        exact Seg.initProc_other t r r' hr'.1
+  obtain ⟨k1, _, k3, k4, k5⟩ := key ranks (Seg.backup s) rfl hc
+  exact ⟨k1, k3, k4, fun c r hr => by simp only [Seg.setup] at hr ⊢; rw [k5] at hr; cases hr⟩
+
+/-- in the specification a store of rank `i` to a global is invisible to every other rank -/
+theorem ideal_store_invisible (c : Seg.Cfg) (s s' : Seg.Ideal) (i j a a' : Nat) (v : Int) (hij : j ≠ i)
+    (hs : Seg.istep c s (.store i a v) = some (s', none)) (ha : c.inSeg a = true) : Seg.viewRd c s' j a' = Seg.viewRd c s j a' := by
+  simp only [Seg.istep] at hs
+  split at hs
+  · simp only [Option.some.injEq, Prod.mk.injEq, and_true] at hs
+    subst hs
+    simp [Seg.viewRd, Seg.viewWr, ha, Seg.upd2, hij]
+  · cases hs
+
+/-- a global → global message on a concrete state: segment [100, 104), rank 0 holds 1 and rank 1 holds 2 at offset 0, rank
+    1's file is mapped.  The callback maps rank 0's file, saves the byte to the temp buffer, maps rank 1's file and stores
+    it at offset 1 of rank 1's copy: rank 1 receives rank 0's value (not its own 2), nothing else changes, rank 1's file
+    stays mapped.  (Without the temp copy the memcpy would read address 100 after the second switch, i.e. rank 1's own 2.) -/
+theorem commCopy_global_to_global_example :
+    let c : Seg.Cfg := ⟨100, 4⟩
+    let s : Seg.St := ⟨fun _ => 0, fun _ => 0, fun r _ => if r = 0 then 1 else 2, some 1, fun _ => 0, none⟩
+    (Seg.commCopyImpl c s 0 1 100 101 1).region 1 1 = 1 ∧ (Seg.commCopyImpl c s 0 1 100 101 1).region 0 0 = 1 ∧
+    (Seg.commCopyImpl c s 0 1 100 101 1).region 1 0 = 2 ∧ (Seg.commCopyImpl c s 0 1 100 101 1).loaded = some 1 := by
+  decide +kernel
+
+/-- non-vacuity of `segment_isolation`: stores to globals and to the stack, a kernel switch that the address filter
+    refuses, global → stack and stack → global messages; every value read is the rank's own -/
+example :
+    let c : Seg.Cfg := ⟨100, 4⟩
+    let s0 : Seg.St := Seg.setup ⟨fun o => 10 + o, fun _ => 0, fun _ _ => 0, none, fun _ => 0, none⟩ [0, 1]
+    (Seg.runWith (Seg.step c) s0
+      [.resume 0, .store 0 100 5, .store 0 500 77, .resume 1, .load 1 100, .store 1 100 6, .kswitch 0 (some 500),
+       .commCopy 0 1 100 600 2, .commCopy 1 0 600 102 1, .resume 0, .load 0 100, .load 0 102, .resume 1, .load 1 600,
+       .load 1 601, .load 1 102]).map (·.2) = some [10, 5, 5, 5, 11, 12] := by
+  decide +kernel
+
 
 end SgVerif.C36
